@@ -1,5 +1,6 @@
 import Mathlib.Tactic
 import Sentinel.Lemmas.PipelineCb
+import Sentinel.Lemmas.PipelineCouple
 import Sentinel.Props.C01
 import Sentinel.Props.C04
 import Sentinel.Props.C07
@@ -420,6 +421,67 @@ theorem window_is_ledger_integrated (A : System.Arith R) (l0 c0 : R) (os : List 
   rw [e1]
   have := Sentinel.C01.window_refines_ledger false _ _ e3 e2 k Iv now (by simpa using le_trans e4 hnow) hIv
   simpa using this
+
+end Sentinel.INT
+
+/-! ## 3b. the shared state: the isolation slot reads the resource node's gauge
+
+In the code the isolation slot reads `CurrentConcurrency()` of the resource node that `stat.Slot` maintains; in the product
+model the isolation component carries its own `gauge` (moved by the isolation model's steps only).  They never differ. -/
+
+namespace Sentinel.INT
+open Sentinel.Pipe
+
+variable {R : Type} [LT R] [∀ a b : R, Decidable (a < b)]
+
+theorem couple_fresh (l0 c0 : R) : Couple (fresh l0 c0) :=
+  ⟨fun _ => rfl,
+   fun id r => ⟨fun h => by simp [fresh, Iso.resOfId] at h, fun ⟨i, hi, _⟩ => by simp [fresh, Entry.info] at hi⟩,
+   fun _ _ => rfl, fun id i hi => by simp [fresh, Entry.info] at hi, fun _ => rfl⟩
+
+/-- **iso_gauge_coupled**: after every integrated history the isolation component's gauge of a resource is the
+    `CurrentConcurrency()` of the resource's node (0 while the node does not exist), which by `gauge_is_live_integrated` is the
+    number of live admitted entries of the resource — whichever slots blocked whatever in between. -/
+theorem iso_gauge_coupled (A : System.Arith R) (l0 c0 : R) (os : List (Pipe.Op R))
+    (hs : (run A (fresh l0 c0) os).1.started = true) (res : String) :
+    (run A (fresh l0 c0) os).1.iso.gauge res = ((Entry.obsConc (run A (fresh l0 c0) os).1.ent (some res)).getD 0) := by
+  have hc := couple_run A _ os (couple_fresh l0 c0)
+  obtain ⟨e1, e2, e3, _, _⟩ := ent_is_entry_run A l0 c0 os hs
+  rw [e1, Sentinel.C01.conc_refines_ledger false _ _ e3 e2 (some res), hc.gauge res]
+  simp only [Entry.ledConc, List.reverse_reverse]
+  split_ifs with hp
+  · rfl
+  · have hn : Entry.nodeExists (run A (fresh l0 c0) os).1.eh res = false := by simpa using hp
+    simp [(Entry.noNode_empty false _ res hn).2]
+
+/-- hence the isolation verdict of the integrated chain is `isolation.checkPass` on the node's own gauge -/
+theorem iso_verdict_reads_node (A : System.Arith R) (l0 c0 : R) (os : List (Pipe.Op R))
+    (hs : (run A (fresh l0 c0) os).1.started = true) (q : Req) :
+    verdict A (run A (fresh l0 c0) os).1 q .iso =
+      (Iso.checkPass (Iso.rulesOf (run A (fresh l0 c0) os).1.iso.rules (rname q.res))
+        ((Entry.obsConc (run A (fresh l0 c0) os).1.ent (some (rname q.res))).getD 0) (UInt32.ofNat q.batch)).map
+        fun p => Blk.iso p.1.idx p.2 := by
+  simp only [verdict]
+  rw [iso_gauge_coupled A l0 c0 os hs]
+
+end Sentinel.INT
+
+namespace Sentinel.INT
+open Sentinel.Pipe
+
+/-- the pass counters of a node array, as the flow model keeps them -/
+def passArr (a : Sentinel.LA.Arr Sentinel.LA.Bucket) : Sentinel.LA.Arr Nat :=
+  { n := a.n, L := a.L, slots := a.slots.map fun s => { start := s.start, val := s.val.pass } }
+
+/-- **Not proved** (full statement; validated on every correspondence run, where the flow decisions come from the copy and the
+    `stat` reads from `ent`): the flow component's private copy of the resource nodes' pass counters is the pass projection of
+    the shared nodes.  (Needs: `rname` injective, the leap-array step commutes with the projection, `reqs` = the live admitted
+    contexts of `ent`.) -/
+def flow_nodes_coupled_statement : Prop :=
+  ∀ (R : Type) [LT R] [∀ a b : R, Decidable (a < b)] (A : System.Arith R) (l0 c0 : R) (os : List (Pipe.Op R)),
+    (run A (fresh l0 c0) os).1.started = true →
+    ∀ k : Nat, FlowReject.lookup (run A (fresh l0 c0) os).1.flow.nodes k =
+      (Entry.findN (run A (fresh l0 c0) os).1.ent.nodes (rname k)).map fun n => passArr n.arr
 
 end Sentinel.INT
 
